@@ -731,26 +731,6 @@ func (e *Engine) MessageReceived(ctx context.Context, p peer.ID, m bsmsg.BitSwap
 			wantKs = append(wantKs, entry.Cid)
 		}
 	}
-	blockSizes, err := e.bsm.getBlockSizes(ctx, wantKs)
-	if err != nil {
-		log.Info("aborting message processing", err)
-		return false
-	}
-	if len(haveKs) != 0 {
-		hasBlocks, err := e.bsm.hasBlocks(ctx, haveKs)
-		if err != nil {
-			log.Info("aborting message processing", err)
-			return false
-		}
-		if len(hasBlocks) != 0 {
-			if blockSizes == nil {
-				blockSizes = make(map[cid.Cid]int, len(hasBlocks))
-			}
-			for blkCid := range hasBlocks {
-				blockSizes[blkCid] = 0
-			}
-		}
-	}
 
 	e.lock.Lock()
 
@@ -775,6 +755,33 @@ func (e *Engine) MessageReceived(ctx context.Context, p peer.ID, m bsmsg.BitSwap
 	}
 
 	e.lock.Unlock()
+
+	// Look up the blocks only now that the wants are in the ledger. A block
+	// that is added from here on is announced to this peer by
+	// NotifyNewBlocks, which goes by the ledger; a block that was added
+	// earlier is found by the lookup. Looking up first would leave a window
+	// in which a new block is neither found here nor announced, and the want
+	// would be answered with DONT_HAVE and then never served.
+	blockSizes, err := e.bsm.getBlockSizes(ctx, wantKs)
+	if err != nil {
+		log.Info("aborting message processing", err)
+		return false
+	}
+	if len(haveKs) != 0 {
+		hasBlocks, err := e.bsm.hasBlocks(ctx, haveKs)
+		if err != nil {
+			log.Info("aborting message processing", err)
+			return false
+		}
+		if len(hasBlocks) != 0 {
+			if blockSizes == nil {
+				blockSizes = make(map[cid.Cid]int, len(hasBlocks))
+			}
+			for blkCid := range hasBlocks {
+				blockSizes[blkCid] = 0
+			}
+		}
+	}
 
 	var activeEntries []peertask.Task
 
